@@ -142,7 +142,7 @@ partial def fmtLawB (L : TextLib Float) : List Nat → DType Float → PVal Floa
   | pos, .scaled scale _ _ _ _, .float x =>
     (match L.evalAtom (L.fmtFloat pos x) with
      | some w => (match scaledCall scale w with
-       | .ok y => L.fmtFloat pos y == L.fmtFloat pos x
+       | .ok y => L.fmtFloat pos y == L.fmtFloat pos x && decide (SnapFix scale y)
        | .error _ => false)
      | none => false)
   | pos, .array e _ _, .tuple vs => vs.all (fmtLawB L (pos ++ [0]) e)
